@@ -532,6 +532,210 @@ pub proof fn lemma_fl_cases<P: Prefix, L, R>(tl: Seq<Node<P, L>>, tr: Seq<Node<P
     }
 }
 
+// ---- end of the lemma_fl family ----
+
+// ---- the traversal stack as a whole (shared by union / intersection / difference) ----
+
+/// key k is covered by some entry of the stack
+pub open spec fn kcov<P: Prefix, L, R>(tl: Seq<Node<P, L>>, tr: Seq<Node<P, R>>, es: Seq<Ent>, k: Seq<bool>) -> bool {
+    exists|j: int| 0 <= j < es.len() && pre(ent_key(tl, tr, #[trigger] es[j]), k)
+}
+
+/// the whole stack: entries valid, regions pairwise incomparable, lexicographically descending towards the top
+pub open spec fn ss_ok<P: Prefix, L, R>(tl: Seq<Node<P, L>>, tr: Seq<Node<P, R>>, xa: Seq<bool>, xb: Seq<bool>, es: Seq<Ent>) -> bool {
+    twf(tl) && twf(tr) && ents_ok(tl, tr, xa, xb, Seq::<bool>::empty(), false, es)
+}
+
+/// popping the top entry (key x) and pushing entries cs that describe everything strictly below x
+pub proof fn lemma_stack_replace<P: Prefix, L, R>(tl: Seq<Node<P, L>>, tr: Seq<Node<P, R>>, xa: Seq<bool>, xb: Seq<bool>, es: Seq<Ent>, cs: Seq<Ent>)
+    requires
+        ss_ok(tl, tr, xa, xb, es), es.len() > 0,
+        ni_post(tl, tr, xa, xb, ent_key(tl, tr, es.last()), true, cs),
+    ensures
+        ss_ok(tl, tr, xa, xb, es.drop_last() + cs),
+        ent_ok(tl, tr, xa, xb, es.last()),
+        // what is covered afterwards: the same view nodes except those at the popped key
+        forall|n: int| #![trigger tlive(tl).contains(n)] vin(tl, xa, n) ==>
+            (kcov(tl, tr, es.drop_last() + cs, kb(tl, n)) == (kcov(tl, tr, es, kb(tl, n)) && !(kb(tl, n) =~= ent_key(tl, tr, es.last())))),
+        forall|m: int| #![trigger tlive(tr).contains(m)] vin(tr, xb, m) ==>
+            (kcov(tl, tr, es.drop_last() + cs, kb(tr, m)) == (kcov(tl, tr, es, kb(tr, m)) && !(kb(tr, m) =~= ent_key(tl, tr, es.last())))),
+        // the popped key is the smallest covered key
+        forall|k: Seq<bool>| #[trigger] kcov(tl, tr, es, k) && !(k =~= ent_key(tl, tr, es.last())) ==> lex_lt(ent_key(tl, tr, es.last()), k),
+{
+    reveal(ents_ok); reveal(ents_cover);
+    let x = ent_key(tl, tr, es.last());
+    let rest = es.drop_last();
+    let es2 = rest + cs;
+    let top = es.len() - 1;
+    assert(es[top] == es.last());
+    assert forall|k: int| 0 <= k < es2.len() implies ent_ok(tl, tr, xa, xb, #[trigger] es2[k]) && in_reg(Seq::<bool>::empty(), false, ent_key(tl, tr, es2[k])) by {
+        if k < rest.len() { assert(es2[k] == es[k]); } else { assert(es2[k] == cs[k - rest.len()]); }
+    }
+    assert forall|k: int, j: int| 0 <= k < j < es2.len() implies
+            incomparable(ent_key(tl, tr, #[trigger] es2[k]), ent_key(tl, tr, #[trigger] es2[j])) && lex_lt(ent_key(tl, tr, es2[j]), ent_key(tl, tr, es2[k])) by {
+        if j < rest.len() {
+            assert(es2[k] == es[k] && es2[j] == es[j]);
+        } else if k < rest.len() {
+            assert(es2[k] == es[k] && es2[j] == cs[j - rest.len()]);
+            assert(incomparable(ent_key(tl, tr, es[k]), ent_key(tl, tr, es[top])) && lex_lt(ent_key(tl, tr, es[top]), ent_key(tl, tr, es[k])));
+            lemma_pre_refl(ent_key(tl, tr, es[k]));
+            lemma_lex_regions(x, ent_key(tl, tr, es[k]), ent_key(tl, tr, cs[j - rest.len()]), ent_key(tl, tr, es[k]));
+        } else {
+            assert(es2[k] == cs[k - rest.len()] && es2[j] == cs[j - rest.len()]);
+        }
+    }
+    assert forall|n: int| #![trigger tlive(tl).contains(n)] vin(tl, xa, n) implies
+            (kcov(tl, tr, es2, kb(tl, n)) == (kcov(tl, tr, es, kb(tl, n)) && !(kb(tl, n) =~= x))) by {
+        lemma_cov_replace(tl, tr, es, cs, kb(tl, n));
+        if kcov(tl, tr, es, kb(tl, n)) && !(kb(tl, n) =~= x) && pre(x, kb(tl, n)) {
+            let k1 = choose|k: int| 0 <= k < cs.len() && pre(ent_key(tl, tr, #[trigger] cs[k]), kb(tl, n));
+            assert(es2[rest.len() + k1] == cs[k1]);
+        }
+    }
+    assert forall|m: int| #![trigger tlive(tr).contains(m)] vin(tr, xb, m) implies
+            (kcov(tl, tr, es2, kb(tr, m)) == (kcov(tl, tr, es, kb(tr, m)) && !(kb(tr, m) =~= x))) by {
+        lemma_cov_replace(tl, tr, es, cs, kb(tr, m));
+        if kcov(tl, tr, es, kb(tr, m)) && !(kb(tr, m) =~= x) && pre(x, kb(tr, m)) {
+            let k1 = choose|k: int| 0 <= k < cs.len() && pre(ent_key(tl, tr, #[trigger] cs[k]), kb(tr, m));
+            assert(es2[rest.len() + k1] == cs[k1]);
+        }
+    }
+    assert forall|k: Seq<bool>| #[trigger] kcov(tl, tr, es, k) && !(k =~= x) implies lex_lt(x, k) by {
+        let j = choose|j: int| 0 <= j < es.len() && pre(ent_key(tl, tr, #[trigger] es[j]), k);
+        if j < top {
+            assert(incomparable(ent_key(tl, tr, es[j]), ent_key(tl, tr, es[top])) && lex_lt(ent_key(tl, tr, es[top]), ent_key(tl, tr, es[j])));
+            lemma_pre_refl(x);
+            lemma_lex_regions(x, ent_key(tl, tr, es[j]), x, k);
+        } else {
+            lemma_lex_spre(x, k);
+        }
+    }
+}
+
+/// coverage bookkeeping for lemma_stack_replace (pure sequence reasoning): keys not below x keep their covering entry,
+/// keys covered by a new entry lie strictly below x
+pub proof fn lemma_cov_replace<P: Prefix, L, R>(tl: Seq<Node<P, L>>, tr: Seq<Node<P, R>>, es: Seq<Ent>, cs: Seq<Ent>, k: Seq<bool>)
+    requires
+        es.len() > 0,
+        forall|j: int| 0 <= j < cs.len() ==> spre(ent_key(tl, tr, es.last()), ent_key(tl, tr, #[trigger] cs[j])),
+        forall|i: int| 0 <= i < es.len() - 1 ==> incomparable(ent_key(tl, tr, #[trigger] es[i]), ent_key(tl, tr, es.last())),
+    ensures
+        kcov(tl, tr, es.drop_last() + cs, k) ==> kcov(tl, tr, es, k) && !(k =~= ent_key(tl, tr, es.last())),
+        kcov(tl, tr, es, k) && !pre(ent_key(tl, tr, es.last()), k) ==> kcov(tl, tr, es.drop_last() + cs, k),
+{
+    let x = ent_key(tl, tr, es.last());
+    let rest = es.drop_last();
+    let es2 = rest + cs;
+    if kcov(tl, tr, es2, k) {
+        let j = choose|j: int| 0 <= j < es2.len() && pre(ent_key(tl, tr, #[trigger] es2[j]), k);
+        if j < rest.len() {
+            assert(es2[j] == es[j]);
+            assert(pre(ent_key(tl, tr, es[j]), k));
+            if k =~= x { assert(incomparable(ent_key(tl, tr, es[j]), x)); }
+        } else {
+            assert(es2[j] == cs[j - rest.len()]);
+            lemma_pre_trans(x, ent_key(tl, tr, cs[j - rest.len()]), k);
+            assert(pre(ent_key(tl, tr, es[es.len() - 1]), k));
+        }
+    }
+    if kcov(tl, tr, es, k) && !pre(x, k) {
+        let j = choose|j: int| 0 <= j < es.len() && pre(ent_key(tl, tr, #[trigger] es[j]), k);
+        assert(j < es.len() - 1);
+        assert(es2[j] == es[j]);
+    }
+}
+
+/// the two halves below x: entries for the 1-half first (below), entries for the 0-half on top
+pub proof fn lemma_ni_concat<P: Prefix, L, R>(tl: Seq<Node<P, L>>, tr: Seq<Node<P, R>>, xa: Seq<bool>, xb: Seq<bool>, x: Seq<bool>, csr: Seq<Ent>, csl: Seq<Ent>)
+    requires ni_post(tl, tr, xa, xb, x.push(true), false, csr), ni_post(tl, tr, xa, xb, x.push(false), false, csl)
+    ensures ni_post(tl, tr, xa, xb, x, true, csr + csl)
+{
+    reveal(ents_ok); reveal(ents_cover);
+    lemma_half_region(x, true);
+    lemma_half_region(x, false);
+    let cs = csr + csl;
+    assert forall|k: int| 0 <= k < cs.len() implies ent_ok(tl, tr, xa, xb, #[trigger] cs[k]) && in_reg(x, true, ent_key(tl, tr, cs[k])) by {
+        if k < csr.len() { assert(cs[k] == csr[k]); assert(pre(x.push(true), ent_key(tl, tr, csr[k]))); }
+        else { assert(cs[k] == csl[k - csr.len()]); assert(pre(x.push(false), ent_key(tl, tr, csl[k - csr.len()]))); }
+    }
+    assert forall|k: int, j: int| 0 <= k < j < cs.len() implies
+            incomparable(ent_key(tl, tr, #[trigger] cs[k]), ent_key(tl, tr, #[trigger] cs[j])) && lex_lt(ent_key(tl, tr, cs[j]), ent_key(tl, tr, cs[k])) by {
+        if j < csr.len() { assert(cs[k] == csr[k] && cs[j] == csr[j]); }
+        else if k >= csr.len() { assert(cs[k] == csl[k - csr.len()] && cs[j] == csl[j - csr.len()]); }
+        else {
+            assert(cs[k] == csr[k] && cs[j] == csl[j - csr.len()]);
+            assert(pre(x.push(true), ent_key(tl, tr, csr[k])) && pre(x.push(false), ent_key(tl, tr, csl[j - csr.len()])));
+            lemma_lex_children(x, ent_key(tl, tr, csl[j - csr.len()]), ent_key(tl, tr, csr[k]));
+        }
+    }
+    assert forall|n: int| #![trigger tlive(tl).contains(n)] vin(tl, xa, n) && spre(x, kb(tl, n)) implies exists|k: int| 0 <= k < cs.len() && pre(ent_key(tl, tr, #[trigger] cs[k]), kb(tl, n)) by {
+        if kb(tl, n)[x.len() as int] {
+            assert(pre(x.push(true), kb(tl, n)));
+            let k1 = choose|k: int| 0 <= k < csr.len() && pre(ent_key(tl, tr, #[trigger] csr[k]), kb(tl, n));
+            assert(cs[k1] == csr[k1]);
+        } else {
+            assert(pre(x.push(false), kb(tl, n)));
+            let k1 = choose|k: int| 0 <= k < csl.len() && pre(ent_key(tl, tr, #[trigger] csl[k]), kb(tl, n));
+            assert(cs[csr.len() + k1] == csl[k1]);
+        }
+    }
+    assert forall|m: int| #![trigger tlive(tr).contains(m)] vin(tr, xb, m) && spre(x, kb(tr, m)) implies exists|k: int| 0 <= k < cs.len() && pre(ent_key(tl, tr, #[trigger] cs[k]), kb(tr, m)) by {
+        if kb(tr, m)[x.len() as int] {
+            assert(pre(x.push(true), kb(tr, m)));
+            let k1 = choose|k: int| 0 <= k < csr.len() && pre(ent_key(tl, tr, #[trigger] csr[k]), kb(tr, m));
+            assert(cs[k1] == csr[k1]);
+        } else {
+            assert(pre(x.push(false), kb(tr, m)));
+            let k1 = choose|k: int| 0 <= k < csl.len() && pre(ent_key(tl, tr, #[trigger] csl[k]), kb(tr, m));
+            assert(cs[csr.len() + k1] == csl[k1]);
+        }
+    }
+}
+
+/// children of a Both(l, r) entry: the pairs (l.right, r.right) and (l.left, r.left) satisfy the precondition of next_indices
+pub proof fn lemma_both_children<P: Prefix, L, R>(tl: Seq<Node<P, L>>, tr: Seq<Node<P, R>>, xa: Seq<bool>, xb: Seq<bool>, l: usize, r: usize, s: bool)
+    requires twf(tl), twf(tr), ent_ok(tl, tr, xa, xb, Ent::Both(l, r))
+    ensures
+        ni_pre(tl, tr, xa, xb, kb(tl, l as int).push(s), false, chd(tl, l as int, s), chd(tr, r as int, s)),
+        l < tl.len(), r < tr.len(),
+        chd(tl, l as int, s).is_some() ==> tlive(tl).contains(chd(tl, l as int, s).unwrap() as int),
+        chd(tr, r as int, s).is_some() ==> tlive(tr).contains(chd(tr, r as int, s).unwrap() as int),
+{
+    let x = kb(tl, l as int);
+    lemma_twf_live(tl); lemma_twf_live(tr);
+    lemma_live_bound(tl, l as int); lemma_live_bound(tr, r as int);
+    lemma_half_region(x, s);
+    lemma_side_child(tl, xa, l as int, s);
+    assert(kb(tr, r as int) == x);
+    lemma_side_child(tr, xb, r as int, s);
+}
+
+/// the view nodes in the half region below node i on side s are exactly those at or below its s-child
+pub proof fn lemma_side_child<P: Prefix, T>(t: Seq<Node<P, T>>, x: Seq<bool>, i: int, s: bool)
+    requires twf(t), vin(t, x, i)
+    ensures
+        side_ok(t, x, kb(t, i).push(s), false, chd(t, i, s)),
+        chd(t, i, s).is_some() ==> tlive(t).contains(chd(t, i, s).unwrap() as int),
+{
+    let live = tlive(t);
+    let ki = kb(t, i);
+    lemma_twf_live(t);
+    lemma_half_region(ki, s);
+    lemma_pre_refl(ki);
+    lemma_step(t, live, i, ki);
+    if chd(t, i, s).is_some() {
+        let c = chd(t, i, s).unwrap() as int;
+        lemma_pre_trans(x, ki, kb(t, c));
+        assert forall|n: int| #![trigger tlive(t).contains(n)] vin(t, x, n) && pre(ki.push(s), kb(t, n)) implies pre(kb(t, c), kb(t, n)) by {
+            lemma_desc(t, live, i, n);
+        }
+    } else {
+        assert forall|n: int| #![trigger tlive(t).contains(n)] vin(t, x, n) implies !pre(ki.push(s), kb(t, n)) by {
+            if pre(ki.push(s), kb(t, n)) { lemma_desc(t, live, i, n); }
+        }
+    }
+}
+
 // ---- one-sided descent, mirrored: the right view's node r is strictly above the left view's node l (entry FirstR(l, r)) ----
 // (mechanical mirror image of the lemma_fl_* family, generated by tools/mirror_setops.py)
 
@@ -776,3 +980,4 @@ pub proof fn lemma_fr_cases<P: Prefix, L, R>(tl: Seq<Node<P, L>>, tr: Seq<Node<P
         }
     }
 }
+
